@@ -13,7 +13,9 @@ Open Scope Z_scope.
 
 (* ---------- kinds ---------- *)
 Inductive ikind := Byte | I8 | I16 | U16 | I32 | U32 | Int | UInt | I64 | U64.
-Inductive kind := KBool | KI (k : ikind) | KStr.
+(* KF64 = float64, modelled only for values that are integers (2.0, 4.0, 1e15): enough to state how a float
+   literal with an integral value adapts to an integer operand and back; every other float is outside (OOM) *)
+Inductive kind := KBool | KI (k : ikind) | KF64 | KStr.
 
 Definition all_ikinds : list ikind := [Byte; I8; I16; U16; I32; U32; Int; UInt; I64; U64].
 
@@ -46,17 +48,18 @@ Definition irank (k : ikind) : Z :=
   | Int => 8 | UInt => 9 | I64 => 10 | U64 => 11
   end.
 Definition rank (k : kind) : Z :=
-  match k with KBool => 1 | KI i => irank i | KStr => 16 end.
+  match k with KBool => 1 | KI i => irank i | KF64 => 13 | KStr => 16 end.
 
 Definition ikind_eqb (a b : ikind) : bool := irank a =? irank b.
 Definition kind_eqb (a b : kind) : bool := rank a =? rank b.
 
 (* ---------- values ---------- *)
-Inductive value := VInt (k : ikind) (z : Z) | VBool (b : bool) | VStr (s : str).
+Inductive value := VInt (k : ikind) (z : Z) | VBool (b : bool) | VStr (s : str)
+                 | VFlt (z : Z).   (* the float64 whose value is the integer z *)
 Definition kind_of (v : value) : kind :=
-  match v with VInt k _ => KI k | VBool _ => KBool | VStr _ => KStr end.
-Definition is_numeric (v : value) : bool := match v with VInt _ _ => true | _ => false end.
-Definition kind_numeric (k : kind) : bool := match k with KI _ => true | _ => false end.
+  match v with VInt k _ => KI k | VBool _ => KBool | VStr _ => KStr | VFlt _ => KF64 end.
+Definition is_numeric (v : value) : bool := match v with VInt _ _ | VFlt _ => true | _ => false end.
+Definition kind_numeric (k : kind) : bool := match k with KI _ | KF64 => true | _ => false end.
 
 Inductive err := ETypeMismatch | EInvalidType | EDivZero | ELossy | EVarType | EArgType | EOther.
 (* OOM = outside the modelled fragment (string parsing, ReplaceAll, floats) *)
@@ -74,20 +77,6 @@ Definition s_false : str := [102; 97; 108; 115; 101]%N.
 Definition itoa (z : Z) : str :=
   if z <? 0 then 45%N :: digits (Z.to_N (- z)) else digits (Z.to_N z).
 
-Definition coerce (v : value) (k : kind) : res value :=
-  match k, v with
-  | KI t, VInt _ z => Ok (VInt t (wrap t z))
-  | KI t, VBool b => Ok (VInt t (if b then 1 else 0))
-  | KI t, VStr [] => Ok (VInt t 0)
-  | KI t, VStr _ => OOM                                  (* egostrings.Atoi *)
-  | KBool, VBool b => Ok (VBool b)
-  | KBool, VInt _ z => Ok (VBool (negb (z =? 0)))
-  | KBool, VStr _ => OOM
-  | KStr, VInt _ z => Ok (VStr (itoa z))
-  | KStr, VBool b => Ok (VStr (if b then s_true else s_false))
-  | KStr, VStr s => Ok (VStr s)
-  end.
-
 (* float64(z) for an integer z, as the integer it denotes: round to nearest, ties to even, 53 bits *)
 Definition f64 (z : Z) : Z :=
   let a := Z.abs z in
@@ -100,12 +89,34 @@ Definition f64 (z : Z) : Z :=
     let q' := if (h <? r) || ((r =? h) && Z.odd q) then q + 1 else q in
     Z.sgn z * (q' * 2 ^ sh).
 
+Definition coerce (v : value) (k : kind) : res value :=
+  match k, v with
+  | KI t, VInt _ z => Ok (VInt t (wrap t z))
+  | KI t, VBool b => Ok (VInt t (if b then 1 else 0))
+  | KI t, VStr [] => Ok (VInt t 0)
+  | KI t, VStr _ => OOM                                  (* egostrings.Atoi *)
+  | KBool, VBool b => Ok (VBool b)
+  | KBool, VInt _ z => Ok (VBool (negb (z =? 0)))
+  | KBool, VStr _ => OOM
+  | KStr, VInt _ z => Ok (VStr (itoa z))
+  | KStr, VBool b => Ok (VStr (if b then s_true else s_false))
+  | KStr, VStr s => Ok (VStr s)
+  | KI t, VFlt z => if in_rangeb t z then Ok (VInt t z) else OOM   (* Go: out-of-range float->int is implementation specific *)
+  | KBool, VFlt z => Ok (VBool (negb (z =? 0)))
+  | KStr, VFlt _ => OOM                                   (* strconv.FormatFloat *)
+  | KF64, VInt _ z => Ok (VFlt (f64 z))                   (* float64(int): correctly rounded, still an integer *)
+  | KF64, VBool b => Ok (VFlt (if b then 1 else 0))
+  | KF64, VStr _ => OOM                                   (* strconv.ParseFloat *)
+  | KF64, VFlt z => Ok (VFlt z)
+  end.
+
 (* data.Float64(v): None = error or a string (strconv.ParseFloat is not modelled) *)
 Definition to_f64 (v : value) : option Z :=
   match v with
   | VInt _ z => Some (f64 z)
   | VBool b => Some (if b then 1 else 0)
   | VStr _ => None
+  | VFlt z => Some z
   end.
 
 (* data.CoerceLossless *)
@@ -136,6 +147,18 @@ Definition normalize (v1 : value) (c1 : bool) (v2 : value) (c2 : bool) (strict :
 (* ---------- the diadic opcodes ---------- *)
 Inductive op := Add | Sub | Mul | Div | Mod.
 
+(* float64 arithmetic on integral values: IEEE operations are correctly rounded, so the result is the
+   rounding of the exact integer result; a quotient is modelled only when it is exact and the divisor is
+   not zero (c.divZero is a run-time flag); % has no floating-point case *)
+Definition flt_arith (o : op) (a b : Z) : res value :=
+  match o with
+  | Add => Ok (VFlt (f64 (a + b)))
+  | Sub => Ok (VFlt (f64 (a - b)))
+  | Mul => Ok (VFlt (f64 (a * b)))
+  | Div => if b =? 0 then OOM else if Z.rem a b =? 0 then Ok (VFlt (Z.quot a b)) else OOM
+  | Mod => Err EInvalidType
+  end.
+
 (* the type switch after Normalize (both operands now have the same Go type) *)
 Definition arith (o : op) (v1 v2 : value) : res value :=
   match v1, v2 with
@@ -159,6 +182,7 @@ Definition arith (o : op) (v1 v2 : value) : res value :=
       | Mul => Ok (VBool (a || b))
       | _ => Err EInvalidType
       end
+  | VFlt a, VFlt b => flt_arith o a b
   | _, _ => Err EOther                                     (* not reachable after Normalize *)
   end.
 
@@ -179,6 +203,7 @@ Definition negate_gen (has_i8 : bool) (x : value * bool) : res (value * bool) :=
       if ikind_eqb k I8 && negb has_i8 then Err EInvalidType
       else Ok (VInt k (wrap k (- z)), c)
   | (VStr s, _) => Ok (VStr (rev s), false)
+  | (VFlt z, _) => Ok (VFlt (- z), false)                   (* 0.0 - value, pushed as a plain value *)
   end.
 Definition negate := negate_gen true.
 Definition negate_old := negate_gen false.
@@ -216,6 +241,7 @@ Definition incr_sum (g : cfg) (v1 v2 : value) : res value :=
       if ikind_eqb k I8 && negb (inc_i8 g) then Err EInvalidType
       else Ok (VInt k (wrap k (a + b)))
   | VStr a, VStr b => Ok (VStr (a ++ b))
+  | VFlt a, VFlt b => flt_arith Add a b
   | VBool a, VBool b => if inc_like_store g then Ok (VBool (a && b)) else Err EInvalidType
   | VBool _, _ => if inc_like_store g then Err EOther else Err EInvalidType
   | _, _ => Err EOther                                     (* not reachable: both operands have one kind here *)
@@ -233,7 +259,7 @@ Definition increment (g : cfg) (m : mode) (v : value) (step : value * bool) : re
 (* ---------- boundary 3: argument = requiredTypeByteCodeWithConst + fetchArgValue's Coerce ---------- *)
 (* tnum = data.IsNumeric(<type descriptor>): before the repair only byte, int, int32, int64 *)
 Definition tnum_old (k : kind) : bool :=
-  match k with KI Byte | KI Int | KI I32 | KI I64 => true | _ => false end.
+  match k with KI Byte | KI Int | KI I32 | KI I64 | KF64 => true | _ => false end.
 Definition argument_gen (tnum : kind -> bool) (m : mode) (t : kind) (x : value * bool) : res value :=
   let '(v, c) := x in
   if is_strict m then
@@ -278,6 +304,7 @@ Definition value_eqb (a b : value) : bool :=
   | VInt k x, VInt k' y => ikind_eqb k k' && (x =? y)
   | VBool x, VBool y => Bool.eqb x y
   | VStr x, VStr y => str_eqb x y
+  | VFlt x, VFlt y => x =? y
   | _, _ => false
   end.
 Definition err_code (e : err) : Z :=
